@@ -487,6 +487,11 @@ func (r *Run) Parallel(n int, fn func(worker, i int), onPanic func(i int, v any,
 // failure; otherwise it returns the innermost gortsplib function (line numbers stripped), for
 // use in finding keys.
 func PanicSite(stack string) string {
+	// when the stack was taken inside a deferred recover, the frames above "panic(" belong to
+	// the recovery code (harness): start below it
+	if i := strings.Index(stack, "\npanic("); i >= 0 {
+		stack = stack[i+1:]
+	}
 	lines := strings.Split(stack, "\n")
 	for _, ln := range lines {
 		if strings.HasPrefix(ln, "\t") || strings.HasPrefix(ln, "goroutine ") || ln == "" {
